@@ -414,6 +414,21 @@ func oracleC02(r *Rng, n int, thorough bool, seeds []string) *OracleResult {
 		}
 		m := genMsg6(rr, depth, false)
 		res.Tags[fmt.Sprintf("depth<=%d", min(depth, 5))]++
+		if i%32 == 7 {
+			// a history: an encoding that is abandoned half way - the application built a
+			// relay message around a nil message, ToBytes panics inside the nested option
+			// after the options in front of it were written, the application recovers (an
+			// HTTP-handler style recover, a test helper) - and then the next, ordinary
+			// message.  Whatever scratch state an encoder keeps between calls must not carry
+			// the abandoned bytes into it (seeded change C02-14)
+			func() {
+				defer func() { recover() }()
+				bad := &dhcpv6.RelayMessage{MessageType: dhcpv6.MessageTypeRelayForward, LinkAddr: make([]byte, 16), PeerAddr: make([]byte, 16)}
+				bad.Options.Options = dhcpv6.Options{dhcpv6.OptInterfaceID([]byte("ge-0/0/7.100")), genOpt6(rr, rr.Pick([]int{3, 25, 18, 37}), 1, false), dhcpv6.OptRelayMessage(nil)}
+				bad.ToBytes()
+			}()
+			res.Tags["after-abandoned-encoding"]++
+		}
 		check(m, "v6enc "+sxMsg6(m))
 	}
 	res.Distinct = len(seen)
